@@ -13,9 +13,12 @@ def _gens(quick_num, thorough_num):
             out.append(dict(mode="sim", spec="NodeGen.tla", cfg="NodeGenSim%s.cfg" % x, depth=depth, num=n,
                             max=(12 if q else 200), salt=i, name="walks" + x, timeout=900))
         # edge cover of the focused models (deletion histories / pin histories) with the past abstracted in the VIEW
-        for x, mode, d in (("E", "del", 7), ("B", "del", 7), ("A", "pin", 5), ("E", "pin", 5)):
-            out.append(dict(mode="edges", spec="NodeGen.tla", cfg="NodeGenFocus%s.cfg" % x, depth=d, max=(55 if q else 600),
+        for x, mode, d, mq in (("E", "del", 7, 55), ("B", "del", 7, 55), ("A", "pin", 5, 30), ("E", "pin", 5, 30)):
+            out.append(dict(mode="edges", spec="NodeGen.tla", cfg="NodeGenFocus%s.cfg" % x, depth=d, max=(mq if q else 600),
                             name="%s-edges%s" % (mode, x), env={"VERIF_NODEMODE": mode}, timeout=1500))
+        # complete (not sampled) edge cover of pin/unpin histories over two files sharing a chunk, one repeating it
+        out.append(dict(mode="edges", spec="NodeGen.tla", cfg="NodeGenFocusF.cfg", depth=5, max=(400 if q else 2000),
+                        name="pin2-edgesF (complete)", env={"VERIF_NODEMODE": "pin2"}, timeout=900))
         return out
     return dict(quick=g("quick"), thorough=g("thorough"))
 
